@@ -31,7 +31,12 @@ CheckProbe(p, a) ==
   ELSE IF p.k = "byidx" THEN (IF Answer(p) = ByIndex(s, p.i) THEN {} ELSE {"ByIndexFollowsChronologicalList"})
   ELSE IF p.k = "tsbefore" THEN (IF AnswerTs(p) = TsBefore(s, p.T) THEN {} ELSE {"TimestampBeforeIsStrictPredecessor"})
   ELSE IF p.k = "tsafter" THEN (IF AnswerTs(p) = TsAfter(s, p.T) THEN {} ELSE {"TimestampAfterIsStrictSuccessor"})
-  ELSE IF p.k = "snap" THEN (IF p.prev = Prev(s, p.ts) /\ p.next = Next(s, p.ts) THEN {} ELSE {"SnapshotNeighboursMatchHistory"})
+  ELSE IF p.k = "snap" THEN
+    \* neighbours as of the instant the snapshot was created: a snapshot of the block's own aggregate is made
+    \* in the end-block (whole history); a snapshot of an older aggregate is made by a message of the block,
+    \* i.e. before the end-block adds the aggregates stamped with this block's time (p.at).
+    (LET sc == IF p.ts = p.at THEN s ELSE SelectSeq(s, LAMBDA r : r.ts \prec p.at) IN
+     IF p.prev = Prev(sc, p.ts) /\ p.next = Next(sc, p.ts) THEN {} ELSE {"SnapshotNeighboursMatchHistory"})
   ELSE {"UnknownProbe"}
 
 Check(e) ==
